@@ -183,6 +183,14 @@ func main() {
 		os.Exit(2)
 	}
 	mode, id := os.Args[1], os.Args[2]
+	if mode == "child" {
+		// helper processes of some streams (a crash of the library must not take the harness down)
+		switch id {
+		case "c09race":
+			c09RaceChild(os.Args[3:])
+		}
+		return
+	}
 	fs := flag.NewFlagSet("vh", flag.ExitOnError)
 	seed := fs.Uint64("seed", 1, "")
 	tier := fs.String("tier", "quick", "")
